@@ -32,6 +32,7 @@ func runC10(c *core.Ctx, r *core.Reporter) {
 	// call-next-method and next-method-p walk the :around methods through the same location objects as whoppers
 	c11walk(c, r, "C10.walk")
 	c10shadow(c, r, "C10.shadow")
+	c10wrapscope(c, r, "C10.wrapscope")
 }
 
 // fromMethodsLookup: v derives from a lookup in Aux.methods.
